@@ -131,7 +131,13 @@ def unit_own_directives(U):
     C13.unit_init_state(U, prefix="C14.iterator")
 
 
-UNITS = [("classify", unit_classify), ("own_directives", unit_own_directives)] + PL.c14_units()
+def unit_schema(U):
+    """what is written is what is read back: the tables are plain text / integer stores (checked on the real SCHEMA)"""
+    from contracts import importer as IM_
+    IM_.prove_plain_schema(U, "C14", ['directives', 'meta'])
+
+
+UNITS = [("schema", unit_schema), ("classify", unit_classify), ("own_directives", unit_own_directives)] + PL.c14_units()
 try:
     from standins import C14 as _S
     UNITS = UNITS + list(_S.UNITS)
